@@ -228,8 +228,29 @@ def canon_tests(r):
     return rewrite(r, post=post)
 
 
+def expand_words(r):
+    """W = hi16(W) * 65536 + lo16(W) for every word W whose halves occur in the formula"""
+    words = []
+    for d in walk_atoms(r):
+        if d[0] == "fn" and d[1] in ("hi16", "lo16"):
+            a = as_atom(_arg(d[2][0]))
+            if a is not None and a not in words:
+                words.append(a)
+    if not words:
+        return r
+
+    def pre(d):
+        if d[0] == "fn" and d[1] in ("hi16", "lo16"):
+            return F.Rat(F.Poly.atom(F._intern(d)))
+        if d in words:
+            at = F.Rat(F.Poly.atom(F._intern(d)))
+            return F.fn("hi16", at) * 65536 + F.fn("lo16", at)
+        return None
+    return rewrite(r, pre=pre)
+
+
 def norm(r, whole_values=True):
-    r = canon_tests(r)
+    r = canon_tests(expand_words(r))
     return whole(r) if whole_values else r
 
 
@@ -251,7 +272,11 @@ def phi(c, a, b):
     if isinstance(a, tuple) or isinstance(b, tuple):
         if isinstance(a, tuple) and isinstance(b, tuple) and len(a) == len(b):
             return tuple(phi(c, x, y) for x, y in zip(a, b))
-        return Unknown("tuple in one arm of an `if` only")
+        try:
+            a = F.fn("tuple", *[need(x) for x in a]) if isinstance(a, tuple) else a
+            b = F.fn("tuple", *[need(x) for x in b]) if isinstance(b, tuple) else b
+        except Unsupported:
+            return Unknown("tuple in one arm of an `if` only")
     if is_unknown(a) or is_unknown(b):
         return a if is_unknown(a) else b
     if is_unknown(c):
@@ -532,15 +557,50 @@ class CEval(AutoEvaluator):
     def _call(self, node):
         return self.walker.call(node, self)
 
+    def _assign(self, target, v, st, aug=False):
+        if isinstance(target, ast.Name) and target.id in self.buffers:
+            self.walker.all_inits.append((target.id, v, st))
+        return super()._assign(target, v, st, aug)
+
     def _ev(self, node):
         if isinstance(node, (ast.ListComp, ast.GeneratorExp, ast.SetComp)):
-            its = []
-            for g in node.generators:
-                v = self._ev(g.iter)
-                if is_unknown(v) or isinstance(v, tuple):
-                    return v if is_unknown(v) else Unknown("comprehension over a tuple")
-                its.append(need(v))
-            return F.fn("comp", *its)
+            parts = []
+            saved = {}
+            try:
+                for g in node.generators:
+                    v = self._ev(g.iter)
+                    if isinstance(v, tuple):
+                        try:
+                            v = F.fn("tuple", *[need(x) for x in v])
+                        except Unsupported as e:
+                            v = Unknown(str(e))
+                    if is_unknown(v):
+                        return v
+                    parts.append(need(v))
+                    for i, x in enumerate(n for n in ast.walk(g.target) if isinstance(n, ast.Name)):
+                        if x.id not in saved:
+                            saved[x.id] = self.env.get(x.id)
+                        self.env[x.id] = F.fn("each", need(v), F.const(i))
+                    for c in g.ifs:
+                        cv = self._ev(c)
+                        if is_unknown(cv) or isinstance(cv, tuple):
+                            return cv if is_unknown(cv) else Unknown("test on a tuple")
+                        parts.append(F.fn("where", need(cv)))
+                e = self._ev(node.elt)
+                if isinstance(e, tuple):
+                    try:
+                        e = F.fn("tuple", *[need(x) for x in e])
+                    except Unsupported as ex:
+                        e = Unknown(str(ex))
+                if is_unknown(e):
+                    return e
+                return F.fn("comp", need(e), *parts)
+            finally:
+                for k, v in saved.items():
+                    if v is None:
+                        self.env.pop(k, None)
+                    else:
+                        self.env[k] = v
         if isinstance(node, ast.JoinedStr):
             parts = []
             for v in node.values:
@@ -617,6 +677,9 @@ class Walker:
         self.returns = []         # (value, guard, node) of the walked function itself
         self._ret_stack = [self.returns]
         self._breaks = []         # per open loop: environments at its `break` statements
+        self.bound = {}           # id(followed FunctionDef) -> {parameter: value} of its (last) call
+        self._cells = []          # subscript stores of followed callees
+        self.all_inits = []       # (buffer name, creating value, statement)
         self.table = _method_table(ctx, rel, cls)
         self.effects = _file_effects(self.table)
         env = dict(env or {})
@@ -634,6 +697,11 @@ class Walker:
     @property
     def frame(self):
         return self.frames[-1]
+
+    @property
+    def all_cells(self):
+        """(buffer, index value, stored value, statement) of every subscript store met, followed callees included"""
+        return list(self._cells) + list(self.ev.cells)
 
     def emit(self, unit, n, node=None):
         if is_unknown(n):
@@ -1167,9 +1235,10 @@ class Walker:
             return self.inline(target, node, ev, name)
         pos, kws = self._args(node, ev)
         callee = ev.env.get(func.id) if isinstance(func, ast.Name) else None
+        val = self._opaque(name, recv, pos, kws, node)
         self.events.append(("call", name if name is not None else ("." + func.attr if isinstance(func, ast.Attribute) else None), pos, kws,
-                            self.guard, node, callee, self.frame.id))
-        return self._opaque(name, recv, pos, kws, node)
+                            self.guard, node, callee, self.frame.id, val))
+        return val
 
     def _opaque(self, name, recv, pos, kws, node):
         func = node.func
@@ -1234,6 +1303,7 @@ class Walker:
         for k, v in ev.env.items():
             if k.startswith("self.") and k not in env:
                 env[k] = v
+        self.bound[id(fn2)] = dict(env)
         sub = self._new_ev(fn2, env)
         keep = self.ev
         rets = []
@@ -1253,6 +1323,7 @@ class Walker:
         for k, v in sub.env.items():
             if k.startswith("self."):
                 keep.env[k] = v
+        self._cells.extend(sub.cells)
         if not rets:
             return F.sym("None")
         # several returns: the value is selected by the guards under which they are reached
